@@ -117,6 +117,34 @@ func c01(c *wk.Ctx) {
 			}
 			idx++
 		}
+		// many siblings: one vector of hundreds of cheap elements (state that the codec carries from one
+		// element to the next — counters, depth, scratch buffers — only shows with many of them)
+		if hasVectorField(t) {
+			lens := []int{700}
+			if !c.Quick() {
+				lens = []int{513, 1500, 6000}
+			}
+			for _, n := range lens {
+				if c.Mine(idx) {
+					r := c.Rand(idx)
+					g := &gen.G{U: u, R: r, MaxDepth: 1, ForceStrLen: -1, ImplPick: -1, ForceVecLen: n}
+					all := map[int]bool{}
+					for _, b := range bits {
+						all[b] = true
+					}
+					c.Begin(idx, fmt.Sprintf("%v vector-of-%d", t, n))
+					var v reflect.Value
+					pan, pm, st := wk.Guard(func() { v = g.Object(t, all, 0) })
+					if pan {
+						c.Log.Emit(coreInconclusive("generator: " + pm + " " + st))
+					} else {
+						c01one(c, idx, t, v, fmt.Sprintf("vec%d", n), true)
+						c.Count("values.with_long_vectors", 1)
+					}
+				}
+				idx++
+			}
+		}
 	}
 	// boundary: the longest legal string and the first illegal one
 	for _, n := range []int{1<<24 - 1, 1 << 24} {
@@ -153,6 +181,26 @@ func c01(c *wk.Ctx) {
 
 type tlRpcErr struct{}
 
+// c01prev: what the previous case got back from the library (checked again after the next calls).
+var c01prev struct {
+	b, cp  []byte
+	t      string
+	obj, v reflect.Value
+}
+
+func hasVectorField(t reflect.Type) bool {
+	if t.Kind() != reflect.Ptr || t.Elem().Kind() != reflect.Struct {
+		return false
+	}
+	for i := 0; i < t.Elem().NumField(); i++ {
+		f := t.Elem().Field(i)
+		if f.Type.Kind() == reflect.Slice && f.Type.Elem().Kind() != reflect.Uint8 && f.Tag.Get("tl") != "-" && f.PkgPath == "" {
+			return true
+		}
+	}
+	return false
+}
+
 func c01one(c *wk.Ctx, idx int, t reflect.Type, v reflect.Value, mask string, nontrivialPattern bool) {
 	var b1, b2 []byte
 	var err error
@@ -165,11 +213,19 @@ func c01one(c *wk.Ctx, idx int, t reflect.Type, v reflect.Value, mask string, no
 		c.Viol("C01", idx, "marshal/error/"+t.String(), err.Error(), t.String())
 		return
 	}
+	// results handed out earlier stay what they were: the bytes of the previous case are still held here
+	if c01prev.b != nil && !bytes.Equal(c01prev.b, c01prev.cp) {
+		c.Viol("C01", idx, "marshal/earlier-result-overwritten", fmt.Sprintf("the bytes returned by Marshal(%s) changed at offset %d while %s was being serialised", c01prev.t, firstDiff(c01prev.b, c01prev.cp), t), t.String())
+		c01prev.b = nil
+	}
 	pan, pm, st = wk.Guard(func() { b2, err = tl.Marshal(v.Interface()) })
 	if pan || err != nil || !bytes.Equal(b1, b2) {
 		c.Viol("C01", idx, "marshal/not-deterministic/"+t.String(), fmt.Sprint(pm, err), t.String())
 		return
 	}
+	defer func() {
+		c01prev.b, c01prev.cp, c01prev.t = b1, append([]byte(nil), b1...), t.String()
+	}()
 	_, isWrapper := wrapperType(t)
 	// (a) decoder chooses the type from the constructor id
 	if !isWrapper {
@@ -210,6 +266,14 @@ func c01one(c *wk.Ctx, idx int, t reflect.Type, v reflect.Value, mask string, no
 		}
 		if d := gen.Equal(v, got, t.String()); d != "" {
 			c.Viol("C01", idx, "named/differs/"+t.String(), fmt.Sprintf("presence %s: %s", mask, d), t.String())
+		} else {
+			// the value decoded in the previous case is still the value it was
+			if c01prev.obj.IsValid() {
+				if d := gen.Equal(c01prev.v, c01prev.obj, c01prev.t); d != "" {
+					c.Viol("C01", idx, "named/earlier-value-changed", fmt.Sprintf("the %s decoded earlier changed while %s was being decoded: %s", c01prev.t, t, d), t.String())
+				}
+			}
+			c01prev.obj, c01prev.v = got, v
 		}
 	}
 	sh := gen.Shape(v, 0)
